@@ -362,6 +362,85 @@ def tuple_split_side_effect_order(xs):
     a, b = xs.pop(), xs.pop()
     return (a, b, xs)
 
+def _pred_second_not_none(p):
+    """a predicate used by reference"""
+    return p[1] is not None
+
+def _key_second(p):
+    return p[1]
+
+def uses_function_reference(pairs):
+    kept = list(filter(_pred_second_not_none, pairs))
+    return sorted(kept, key=_key_second), sum(1 for _ in filter(_pred_second_not_none, pairs))
+
+def shadowed_function_reference(pairs):
+    _pred_second_not_none = lambda p: True
+    return list(filter(_pred_second_not_none, pairs))
+
+def flag_loop(xs, stop):
+    out = []
+    done = True
+    for x in xs:
+        out.append(x)
+        if x == stop:
+            done = False
+            break
+        out.append(-x)
+    if done:
+        out.append("end")
+    return out
+
+def flag_loop_negative(xs, stop):
+    found = False
+    for x in xs:
+        if x == stop:
+            found = True
+            break
+    if not found:
+        return "absent"
+    return "present"
+
+def flag_loop_flag_read_later(xs, stop):
+    done = True
+    for x in xs:
+        if x == stop:
+            done = False
+            break
+    if done:
+        xs = list(xs) + ["end"]
+    return (done, xs)
+
+def flag_loop_break_without_set(xs, stop):
+    done = True
+    for x in xs:
+        if x == stop:
+            done = False
+            break
+        if x is None:
+            break
+    if done:
+        return "no stop seen"
+    return "stopped"
+
+def flag_loop_nested_break(xss, stop):
+    ok = True
+    for xs in xss:
+        for x in xs:
+            if x == stop:
+                break
+        if not xs:
+            ok = False
+            break
+    if ok:
+        return "all non-empty"
+    return "empty row"
+
+def takes_three(a, b, c=3):
+    return (a, b, c)
+
+def calls_with_keywords(x):
+    return takes_three(x, c=x + 2, b=x + 1), takes_three(x, b=x + 1, c=x + 2), takes_three(a=x, b=1), takes_three(x, 2, c=5)
+
 def alias_source_rebound_later(a):
     c = a
     d = c
@@ -624,6 +703,11 @@ ARGS = {
     "forwarded_temp": [(3,)], "forwarded_temp_target_rebound": [(3,)], "forwarded_temp_read_elsewhere": [(3,), (-3,)],
     "uses_pair_helper": [([1, 2], 10), ([], 5), ([1, 2, 3, 4], 0)], "tuple_split_sequential": [(1, 2)], "tuple_split_blocked_swap": [(1, 2)],
     "tuple_split_blocked_later_reads_earlier": [(1, 2)], "tuple_split_side_effect_order": [([1, 2, 3],)],
+    "uses_function_reference": [([("a", 2), ("b", None), ("c", 1)],)], "shadowed_function_reference": [([("a", 2), ("b", None)],)],
+    "flag_loop": [([1, 2, 3], 2), ([1, 2, 3], 9), ([], 1)], "flag_loop_negative": [([1, 2], 2), ([1, 2], 5)],
+    "flag_loop_flag_read_later": [([1, 2], 2), ([1, 2], 5)], "flag_loop_break_without_set": [([1, None, 2], 2), ([1, 2], 2), ([1, 3], 2)],
+    "flag_loop_nested_break": [([[1, 2], [3]], 2), ([[1], []], 1)],
+    "calls_with_keywords": [(1,)],
     "alias_source_rebound_later": [(2,)], "field_read_then_store": [(_P(9),)], "element_read_then_pop": [([1, 2, 3],)],
     "temp_into_comprehension_scope": [(5,)], "temp_into_first_iterable": [(2,)], "literal_loop_with_break_must_stay": [(True, True, []), (False, True, [])],
     "counting_while_else_adjacent": [([1, 2, 3], 2), ([1, 2, 3], 9), ([], 1)], "counting_while_with_continue_must_stay": [([1, -2, 3],)],
@@ -658,7 +742,8 @@ def main() -> int:
     _propagate_module_constants(tree)
     n_inlined, log = _inline.inline_module_helpers(tree, "cases")
     dropped = _inline.drop_unreferenced_helpers([tree])
-    normalise_tree(tree, frozenset(), record_classes([tree]))
+    from pgstat.model import package_signatures
+    normalise_tree(tree, frozenset(), record_classes([tree]), package_signatures([tree]))
     ast.fix_missing_locations(tree)
     norm_src = ast.unparse(tree)
     new = {"_Lock": _Lock, "_P": _P}
